@@ -177,7 +177,7 @@ def _run(F, R, ctx):
                    "setting it: neither thread publishes its context at safepoints, so a stop request waits for it forever or "
                    "proceeds while it runs" % (init[0], fn.short()), fn.loc(), sample=True)
     # ---- s
-    for nm, ctl, extra in (("stop_threads", "pause_for_safepoint", None), ("resume_threads", "resume", r"Thread\}::unpark$")):
+    for nm, ctl, extra in (("stop_threads", "pause_for_safepoint", None), ("resume_threads", "(resume|resume_from_safepoint)", r"Thread\}::unpark$")):
         fn = F.one(r"^steel::steel_vm::vm::\{impl Synchronizer\}::%s$" % nm)
         own = fn.call_blocks(r"\{impl ThreadStateController\}::%s$" % ctl)
         per = [b for _, b in lib.family_calls(F, fn) if re.search(r"\{impl ThreadStateController\}::%s$" % ctl, b["callee"])]
